@@ -8,13 +8,13 @@ GEN = ['Histogram']
 LEAN_TARGETS = ['OtelVerif.Props.C07']
 THEOREMS = ['Otel.C07.' + t for t in (
     'bucket_le_length', 'bucket_spec', 'bucket_inBucket', 'bucket_unique', 'bucket_last_iff',
-    'hist_eq_closed', 'hist_wf', 'boundaries_eq', 'counts_eq_spec', 'counts_sum_eq_count', 'count_eq', 'sum_eq',
+    'hist_eq_closed', 'hist_wf', 'boundaries_eq', 'counts_eq_spec', 'counts_eq_spec_double', 'counts_eq_spec_long_partial', 'counts_sum_eq_count', 'count_eq', 'sum_eq',
     'min_eq', 'max_eq', 'min_max_double', 'min_max_long', 'isDouble_range', 'long_in_range',
     'doubleMinInit_eq', 'doubleMaxInit_eq', 'longMinInit_eq', 'longMaxInit_eq',
     'long_default_boundaries', 'double_default_boundaries', 'default_boundaries_sorted', 'recordMinMax_defaults',
     'conv_double', 'conv_long_exact', 'bucket_spec_long_partial', 'bucket_spec_long_witness',
     'merge_hom', 'merge_new_left', 'mergeL_hom', 'mergeR_hom', 'hist_perm',
-    'storage_conserves_count', 'storage_conserves_sum')]
+    'storage_conserves_count', 'storage_conserves_sum', 'storage_series_count_and_sum')]
 HARNESSES = [Harness('s_c07', ['harness/s_c07.cc'], sdk_srcs=sdk_sources('common', 'resource', 'version', 'metrics'),
                      includes=SDK_INCLUDES)]
 H = 's_c07'
@@ -250,8 +250,8 @@ def gen_malformed(rng, out, n):
 def generate(rng, tier):
     big = tier == 'thorough'
     out = []
-    gen_agg(rng, out, 400000 if big else 20000)
-    gen_sdk(rng, out, 100000 if big else 5000)
+    gen_agg(rng, out, 250000 if big else 20000)
+    gen_sdk(rng, out, 60000 if big else 5000)
     gen_long_beyond_2_53(rng, out, 400 if big else 40)
     gen_malformed(rng, out, 32)
     return out
@@ -406,6 +406,7 @@ LEVEL_NOTE = ('Trusted: Lean kernel; tools/gen_c07.py; harness, generators; std:
               'for int64 instruments a value beyond 2^53 is rounded to double before the boundary comparison '
               '(bucket_spec_long_partial + _witness, finding bucket-of-int64-beyond-2^53); the storage-level path (cycles, readers) '
               'is tied by the differential run; storage_conserves_count / storage_conserves_sum carry count and sum through every '
-              'history of cycles and readers (totals over the series), per-series exactness is mergeL_hom + hist_perm.')
+              'history of cycles and readers (totals over the series); storage_series_count_and_sum gives count and sum per series '
+              'below the cardinality limit; buckets/min/max per series follow from mergeL_hom + hist_perm, not from a storage theorem.')
 DESIGN_REF = 'DESIGN.md section 4, C07'
 TECHNIQUE = 'proof (Lean 4) + correspondence'
